@@ -18,6 +18,7 @@ import (
 	"sync"
 	"time"
 
+	"github.com/compose-spec/compose-go/v2/cli"
 	"github.com/compose-spec/compose-go/v2/loader"
 	"github.com/compose-spec/compose-go/v2/types"
 	"gopkg.in/yaml.v3"
@@ -291,6 +292,7 @@ type c01Case struct {
 	Main     []string          `json:"main"`   // compose files in load order
 	Switches []string          `json:"switches"`
 	MustName string            `json:"must_name"`
+	Entry    string            `json:"entry"` // "" loader.LoadWithContext | cli-project | cli-model | parse-yaml
 }
 
 type c01Result struct {
@@ -339,6 +341,68 @@ func c01Run(wd string, cs c01Case) (res c01Result) {
 			}
 		}
 	}()
+	setSwitches := func(o *loader.Options) {
+		o.SkipValidation = sw["SkipValidation"]
+		o.SkipInterpolation = sw["SkipInterpolation"]
+		o.SkipNormalization = sw["SkipNormalization"]
+		o.ResolvePaths = !sw["NoResolvePaths"]
+		o.SkipConsistencyCheck = sw["SkipConsistencyCheck"]
+		o.SkipExtends = sw["SkipExtends"]
+		o.SkipInclude = sw["SkipInclude"]
+		o.SkipResolveEnvironment = sw["SkipResolveEnvironment"]
+		o.SkipDefaultValues = sw["SkipDefaultValues"]
+	}
+	switch cs.Entry {
+	case "parse-yaml":
+		b, _ := os.ReadFile(filepath.Join(dir, cs.Main[0]))
+		m, err := loader.ParseYAML(b)
+		switch {
+		case m != nil && err != nil:
+			res.Outcome, res.Err = "both", err.Error()
+		case m == nil && err == nil:
+			res.Outcome = "neither"
+		case err != nil:
+			res.Outcome, res.Err = "error", err.Error()
+		default:
+			res.Outcome = "project"
+		}
+		return
+	case "cli-project", "cli-model":
+		var paths []string
+		for _, m := range cs.Main {
+			paths = append(paths, filepath.Join(dir, m))
+		}
+		po, err := cli.NewProjectOptions(paths, cli.WithWorkingDirectory(dir), cli.WithName("proj"), cli.WithEnv([]string{"VAR=value"}), cli.WithLoadOptions(setSwitches))
+		if err != nil {
+			res.Outcome, res.Err = "error", err.Error()
+			return
+		}
+		var got interface{}
+		if cs.Entry == "cli-project" {
+			p, e := po.LoadProject(context.Background())
+			if p != nil {
+				got = p
+			}
+			err = e
+		} else {
+			m, e := po.LoadModel(context.Background())
+			if m != nil {
+				got = m
+			}
+			err = e
+		}
+		switch {
+		case got != nil && err != nil:
+			res.Outcome, res.Err = "both", err.Error()
+		case got == nil && err == nil:
+			res.Outcome = "neither"
+		case err != nil:
+			res.Outcome, res.Err = "error", err.Error()
+		default:
+			res.Outcome = "project"
+		}
+		return
+	}
 	p, err := loader.LoadWithContext(context.Background(), types.ConfigDetails{WorkingDir: dir, ConfigFiles: cfs, Environment: types.Mapping{"VAR": "value"}}, func(o *loader.Options) {
 		o.SetProjectName("proj", true)
 		o.SkipValidation = sw["SkipValidation"]
@@ -619,6 +683,13 @@ func C01(c *core.Ctx) {
 				}
 			}
 			cases = append(cases, cc)
+		case "root":
+			doc := flowYAML(kindValue(asStr(cs["kind"])))
+			cc := c01Case{ID: id, Family: "root", Desc: fmt.Sprintf("document root = %s [%s]", asStr(cs["kind"]), asStr(cs["entry"])), Expect: asStr(cs["expect"]), Files: map[string]string{"compose.yaml": doc}, Main: []string{"compose.yaml"}}
+			if asStr(cs["entry"]) == "parse-yaml" {
+				cc.Entry = "parse-yaml"
+			}
+			cases = append(cases, cc)
 		case "fault":
 			nFault++
 			if (nFault+int(c.Seed))%faultEvery != 0 {
@@ -649,7 +720,19 @@ func C01(c *core.Ctx) {
 				}
 			}
 			sort.Strings(ab)
-			cc.Desc = fmt.Sprintf("absent=%v switches=%v dirs=%v", ab, sw, cc.Dirs)
+			// every other fault case goes through the command-line layer (LoadProject, LoadModel), which reads the files itself
+			cc.Entry = []string{"", "cli-project", "", "cli-model"}[id%4]
+			if cc.Entry == "cli-model" {
+				// the model is the merged dictionary: env files and label files are only read when it is bound to a project
+				swOn := map[string]bool{}
+				for _, x := range sw {
+					swOn[x] = true
+				}
+				if !(absent["override"] || (absent["extends"] && !swOn["SkipExtends"]) || ((absent["include"] || absent["include_env_file"]) && !swOn["SkipInclude"])) {
+					cc.Expect = "either"
+				}
+			}
+			cc.Desc = fmt.Sprintf("absent=%v switches=%v dirs=%v entry=%s", ab, sw, cc.Dirs, cc.Entry)
 			if len(ab) == 1 && cc.Expect == "error" {
 				cc.MustName = all[ab[0]][0]
 			}
